@@ -132,7 +132,7 @@ class Stack:
         raise ValueError(kind)
 
 
-def run_ops(inner, sname, oname, ops, debug, seed):
+def run_ops(inner, sname, oname, ops, debug, seed, deterministic_obs=False):
     gvdebug.reset_gv_debug(debug)
     outs = []
     stack = None
@@ -143,6 +143,7 @@ def run_ops(inner, sname, oname, ops, debug, seed):
             inner._state = None
             inner._observation = None
             stack = Stack(inner, sname, oname)
+            stack.deterministic_obs = deterministic_obs
             for kind, arg in ops:
                 try:
                     out = stack.do(kind, arg)
@@ -281,6 +282,10 @@ def truth(stack, kind, out):
         want_s = out
     elif kind == 'wstep':
         want_s, want_o = out[1], out[4]
+    if want_o is not None and getattr(stack, 'deterministic_obs', False):
+        # never stale: with a deterministic observation function the current observation IS the function of the current state
+        if wire.cstate(inner.functional_observation(inner.state)) != wire.cstate(inner.observation):
+            return f'`{kind}` handed out a stale observation: it is not the observation of the current state'
     if want_o is not None and stack.oname is not None:
         fresh = make_observation_representation(KINDS[stack.oname], inner.observation_space)
         exp = fresh.convert(inner.observation)
